@@ -350,6 +350,13 @@ def run(prog, rep, tier):
     if check_derived_refresh(prog, rep) < 2:
         raise AnalysisError('GEOM-derived-refresh: writers of HelicalLattice._N_cells not found')
     check_box_corner(prog, rep)
+    rep.rule('GEOM-shift-rewrap / GEOM-axes-normalised', 'shifted boundaries: wrapped coordinate '
+             'recomputed after the shift in both coupling enumerations; axes normalised before the '
+             'descending expansion of mps2lat_values')
+    if check_shift_rewrap(prog, rep) < 2:
+        raise AnalysisError('GEOM-shift-rewrap: bc_shift blocks of the coupling enumerations not found')
+    if check_axes_normalised(prog, rep) < 1:
+        raise AnalysisError('GEOM-axes-normalised: the multi-axes loop of mps2lat_values not found')
     rep.rule('GEOM-shape-nonpositive', 'the early exit of possible_(multi_)couplings covers negative '
              'coupling shapes (displacement longer than an open direction), not only zero')
     if check_shape_nonpositive(prog, rep) < 2:
@@ -671,4 +678,68 @@ def check_shape_nonpositive(prog, rep):
                           '"negative dimensions are not allowed")'
                           % (name, [unparse(t.test)[:50] for t in tests] or 'is missing'),
                           st0.lineno)
+    return n
+
+
+# ------------------------------------------------------------------ round-5: shifted boundaries, negative axes
+def check_shift_rewrap(prog, rep):
+    """GEOM-shift-rewrap: with shifted boundary conditions the first coordinate of a partner site
+    that wrapped around another direction is moved by `bc_shift` (`X_shifted[.., 0] -= shift`);
+    the wrapped coordinate used for the MPS index must then be RE-computed from it
+    (`X[.., 0] = np.mod(X_shifted[.., 0], Ls[0])`). Sibling agreement: possible_couplings and
+    possible_multi_couplings both do it inside their `if self.bc_shift is not None:` block."""
+    m = prog.module('tenpy/models/lattice.py')
+    n = 0
+    for q in ('Lattice.possible_couplings', 'Lattice.possible_multi_couplings'):
+        f = m.func(q)
+        for br in ast.walk(f):
+            if not (isinstance(br, ast.If) and 'self.bc_shift is not None' in unparse(br.test)):
+                continue
+            subs = [st for st in br.body if isinstance(st, ast.AugAssign) and isinstance(
+                st.op, ast.Sub) and isinstance(st.target, ast.Subscript)]
+            if not subs:
+                continue
+            n += 1
+            shifted = unparse(subs[0].target)
+            ok = any(isinstance(st, ast.Assign) and isinstance(st.value, ast.Call) and
+                     unparse(st.value.func) in ('np.mod', 'numpy.mod') and st.value.args and
+                     unparse(st.value.args[0]) == shifted and st.lineno > subs[0].lineno
+                     for st in br.body)
+            rep.instance('GEOM-shift-rewrap', {'function': q, 'shifted': shifted, 'rewrapped': ok})
+            if not ok:
+                rep.violation('GEOM-shift-rewrap', m, q, 'no-rewrap:' + shifted[:30],
+                              '`%s` applies the boundary shift but the wrapped first coordinate is '
+                              'not recomputed as np.mod(%s, Ls[0]): the MPS index of a coupling '
+                              'across the shifted boundary ignores the shift' %
+                              (key_text(subs[0])[:50], shifted), subs[0].lineno)
+    return n
+
+
+def check_axes_normalised(prog, rep):
+    """GEOM-axes-normalised: mps2lat_values with several axes expands them one at a time, largest
+    axis first, because expanding an axis shifts the ones behind it. "Largest" is only meaningful
+    for NON-NEGATIVE axis numbers: the axes are normalised (`ax + A.ndim` for negative ones) before
+    they are sorted."""
+    m = prog.module('tenpy/models/lattice.py')
+    n = 0
+    for q in ('Lattice.mps2lat_values', 'Lattice.mps2lat_values_masked'):
+        if q not in m.functions:
+            continue
+        f = m.func(q)
+        for lp in ast.walk(f):
+            if not (isinstance(lp, ast.For) and any(
+                    isinstance(c, ast.Call) and call_name(c) in ('sorted', 'reversed')
+                    for c in ast.walk(lp.iter)) and 'axes' in unparse(lp.iter)):
+                continue
+            n += 1
+            ok = any(isinstance(st, ast.Assign) and unparse(st.targets[0]) == 'axes' and
+                     '.ndim' in unparse(st.value) and st.lineno < lp.lineno for st in ast.walk(f))
+            rep.instance('GEOM-axes-normalised', {'function': q, 'loop': unparse(lp.iter)[:50],
+                                                  'normalised_before': ok})
+            if not ok:
+                rep.violation('GEOM-axes-normalised', m, q, 'sorted-raw-axes',
+                              '`for .. in %s` orders the raw axis numbers: a negative axis sorts in '
+                              'front of every positive one although it may denote a later axis, '
+                              'which then is expanded after an earlier one shifted it' %
+                              unparse(lp.iter)[:50], lp.lineno)
     return n
